@@ -25,10 +25,16 @@ trace (mode B style acceptance) instead of compared with one expected behaviour.
 TLC integers are 32 bit, so u64::MAX is scaled to U64Max = 2*10^7 in the model and the delay
 classes max / ovf / half are concretised to u64::MAX, u64::MAX/40+1, u64::MAX/2.
 
-Mutation self-test (2026-09-22): `MAX_JITTER_PERCENT * 2` -> `MAX_JITTER_PERCENT * 4` in
-add_jitter (jitter range doubled) => VIOLATION kind=start (start instant outside +/-20 %);
-`Ok(t) => return Ok(t)` replaced by remembering the last Ok and returning after the loop
-=> VIOLATION kind=ret.  Both undone => exit 0.
+Mutation self-tests (2026-09-22, on a private copy of /repo via VERIF_REPO): (a) `MAX_JITTER_PERCENT * 2`
+-> `MAX_JITTER_PERCENT * 4` in add_jitter (jitter range doubled) => VIOLATION: e.g. delay 3 ms started
+at 2 ms, trace rejected at that `start` event; (b) `Ok(t) => return Ok(t)` replaced by remembering the
+last Ok and returning after the loop => VIOLATION kind=ret (returned k=2 at 5 ms / k=1 at 3000 ms where
+the first success was due).  Both undone => exit 0 (only the known finding).  With
+proposed_fixes/C34.diff applied: exit 0, no KNOWN-FINDING line.
+
+Binding self-tests (every run): an accepted trace with (i) a result naming an attempt that does not
+exist, (ii) an error list missing one attempt's error, (iii) a start instant 100 % late must be rejected
+by TLC at exactly that event, else the check fails with a tool error.
 """
 import json
 import random
@@ -164,6 +170,8 @@ def validate(ctx, traces):
             raise ToolError("trace validation hit invariant %s (guards should have rejected first):\n%s" % (res.violated, res.out[-2000:]))
         if res.ok:
             ctx.log("trace of %d runs (%d events) accepted" % (len(traces), len(flat)))
+            if not ctx.replay:
+                selftest(ctx, traces)
             return
         at = res.trace_rejected_at
         if at is None or at < 1 or at > len(flat):
@@ -184,3 +192,48 @@ def validate(ctx, traces):
         if attempts >= 6 or len(ctx.violations) >= 6:
             ctx.log("stopping trace validation after %d rejected runs" % attempts)
             return
+
+
+def selftest(ctx, traces):
+    """Binding self-test: an accepted trace with one corrupted observation must be rejected at that event."""
+    import copy
+    sub = copy.deepcopy([lines for (_s, lines, _o) in traces[:120]])
+    done = set()
+    for lines in sub:
+        starts = [e for e in lines if e["ev"] == "start"]
+        ret = lines[-1]
+        if "ret" not in done and ret["ev"] == "ret" and ret["kind"] == "ok" and len(starts) >= 2:
+            ret["k"] = len(starts) + 5                     # an answer no attempt of this call received
+            if ret["v4"]:
+                ret["v4"] = ret["k"]
+            if ret["v6"]:
+                ret["v6"] = ret["k"]
+            ret["_corrupt"] = "ret"
+            done.add("ret")
+        elif "start" not in done and len(starts) >= 2 and starts[-1]["t"] >= 3 and ret["ev"] == "ret":
+            starts[-1]["t"] += starts[-1]["t"]             # 100 % late
+            starts[-1]["t6"] = starts[-1]["t"]
+            starts[-1]["_corrupt"] = "start"
+            done.add("start")
+        elif "errs" not in done and ret["ev"] == "ret" and ret["kind"] == "err" and len(ret["errs"]) >= 2:
+            ret["errs"] = ret["errs"][:-1]                 # one attempt's error missing
+            ret["_corrupt"] = "errs"
+            done.add("errs")
+    for want in sorted(done):
+        target = None
+        # keep only the run with this corruption corrupted: rebuild from the originals for the others
+        flat = []
+        for (lines, (_s, orig, _o)) in zip(sub, traces[:120]):
+            use = lines if any(e.get("_corrupt") == want for e in lines) else orig
+            for e in use:
+                if e.get("_corrupt") == want:
+                    target = len(flat) + 1
+                flat.append({k: v for k, v in e.items() if k != "_corrupt"})
+        tf = ctx.write_ndjson("c34-selftest-%s.ndjson" % want, flat)
+        res = ctx.tlc_trace("dns", "Trace_DnsResolve", tf, timeout=1500)
+        # a corrupted start may already be rejected there or at the next event that depends on it
+        if res.ok or res.trace_rejected_at is None or not (target <= res.trace_rejected_at <= target + 1 if want == "start" else res.trace_rejected_at == target):
+            raise ToolError("binding self-test: a trace with a corrupted %s event (event %s) was not rejected there (rejected at %s)"
+                            % (want, target, res.trace_rejected_at))
+        ctx.log("binding self-test: corrupted %s event rejected at event %d" % (want, res.trace_rejected_at))
+    ctx.cov["binding_selftests"] = sorted(done)
